@@ -934,3 +934,52 @@ def gen_giveup(rng):
     add(k="at", o=ex1, p=rng.randrange(3))
     return {"nodes": nodes, "points": points, "steps": steps, "vars": [var], "heavy_cap": 100000,
             "size_cap": 100000, "giveup": True}
+
+
+# ---------------------------------------------------------------------------- medium-size multi-variable input
+
+def gen_budget(rng):
+    """A sum of two medium Horner polynomials in different variables: each partial of it needs several
+    hundred rewrite steps (below the 1000-step budget on its own).  Used by C18: anything that makes the
+    components of an early Differential share a resource in set-iteration order shows up here."""
+    names = rng.sample(["x", "y", "alpha", "b2", "theta_long_name", "k"], 2)
+    nodes = []
+    roots = []
+    for name in names:
+        nodes.append({"op": "Variable", "name": name})
+        var = len(nodes) - 1
+        acc = None
+        for d in range(rng.randint(17, 21)):
+            nodes.append({"op": "Constant", "value": rng.choice([1, 2, -1, 0.5, 3, -2, 1.5])})
+            c = len(nodes) - 1
+            if acc is None:
+                acc = c
+            else:
+                nodes.append({"op": "Multiply", "kids": [var, acc]})
+                nodes.append({"op": "Add", "kids": [c, len(nodes) - 1]})
+                acc = len(nodes) - 1
+        roots.append(acc)
+    nodes.append({"op": "Add", "kids": roots})
+    root = f"n{len(nodes) - 1}"
+    points = [[[names[0], 0.5], [names[1], -0.75]], [[names[1], 1.25], [names[0], -0.5]]]
+    steps = []
+    sid = 0
+
+    def add(**kw):
+        nonlocal sid
+        kw["id"] = sid
+        kw["c"] = 0
+        steps.append(kw)
+        sid += 1
+        return f"s{sid - 1}"
+    fe = add(k="mk", cls="Differential", e=root, early=True)
+    for v in names:
+        c = add(k="comp", o=fe, v=v)
+        add(k="asx", o=c)
+        add(k="at", o=c, p=0)
+    l = add(k="dat", o=fe, p=1)
+    for v in names:
+        add(k="lcomp", o=l, v=v)
+        pe = add(k="mk", cls="Partial", e=root, v=v, early=True)
+        add(k="asx", o=pe)
+    return {"nodes": nodes, "points": points, "steps": steps, "vars": names, "heavy_cap": 100000, "size_cap": 100000}
